@@ -2,7 +2,8 @@
     in proofs/RLProofs.v; nothing else lives here. *)
 From EG.lib Require Import Base.
 From EG.model Require Import RL.
-From EG.proofs Require Import RLProofs.
+From EG.model Require Import RLCheck.
+From EG.proofs Require Import RLProofs RLCheckProofs.
 Open Scope Z_scope.
 
 (** no admitted request is made to wait longer than timeoutDuration (nor a negative time) *)
@@ -95,6 +96,16 @@ Proof.
   vm_compute. split; reflexivity.
 Qed.
 Print Assumptions C09_refuted_rl_inherit_steals_limiter.
+
+(** the decidable trace checker that the harness applies to the IMPLEMENTATION's observables
+    (wait bound, immediate-when-spare, per-period release bound, reject-only-when-horizon-full)
+    accepts every history of the model: it cannot raise an alarm on model-conformant code *)
+Theorem C09_model_passes_checker : forall p els,
+  valid p -> nondecr 0 els ->
+  prop_unit p [] (map (fun el => (el, 1)) els)
+            (map out_code (run p rl0 (map (fun el => (el, 1)) els))) = true.
+Proof. exact model_passes_checker. Qed.
+Print Assumptions C09_model_passes_checker.
 
 (** non-vacuity: the hypotheses are satisfiable by a concrete non-trivial history *)
 Example C09_nonvacuous :
